@@ -511,6 +511,9 @@ func printResult(res *interp.Result) {
 	fmt.Printf("  solver: queries=%d sat=%d unsat=%d unknown=%d errors=%d time=%v; tierB queries=%d time=%v\n",
 		res.Solver.Queries, res.Solver.Sat, res.Solver.Unsat, res.Solver.Unknown, res.Solver.Errors, res.Solver.Time.Round(time.Millisecond), res.SolverB.Queries, res.SolverB.Time.Round(time.Millisecond))
 	fmt.Printf("  witness=%v known=%v\n", res.Witness, res.Known)
+	for _, o := range res.Observes {
+		fmt.Printf("  OBSERVE %s\n", o)
+	}
 	printMap := func(title string, m map[string]int) {
 		if len(m) == 0 {
 			return
